@@ -198,7 +198,10 @@ def _cell_option_tokens(c, skip=()):
     if c.get('imp') and 'imp' not in skip:
         toks += imp_tokens(c.get('imp_groups') or c['imp'])
     if c.get('u') and 'u' not in skip:
-        toks.append(T(kw('u'), raw('='), itok(c['u'])))
+        # c['u_neg']: written u=-n ("this cell is not cut by the boundary of
+        # the cell it fills": an optimisation hint, same universe n)
+        toks.append(T(kw('u'), raw('='),
+                      itok(-c['u'] if c.get('u_neg') else c['u'])))
     if c.get('lat') and 'lat' not in skip:
         toks.append(T(kw('lat'), raw('='), itok(c['lat'])))
     if c.get('fill') is not None and 'fill' not in skip:
